@@ -427,6 +427,13 @@ theorem psd_of_spectral_density [MeasurableSpace V] [BorelSpace V] [SecondCounta
     refine (hint.mul_bdd (c := 1) hc.aestronglyMeasurable ?_)
     exact Filter.Eventually.of_forall fun k => by simpa using Real.abs_cos_le_one _
 
+/-- spectral *measure* version: `ρ(r) = ∫ cos⟨k, r⟩ dμ(k)` for a finite measure `μ` (e.g. the uniform
+    measure on a sphere of wave vectors, whose transform is the J-Bessel model at `ν = d/2 − 1`). -/
+theorem psd_of_spectral_measure [MeasurableSpace V] [BorelSpace V] [SecondCountableTopology V]
+    (μ : Measure V) [IsFiniteMeasure μ] : IsPSDFun fun r : V => ∫ k, Real.cos (inner ℝ k r) ∂μ := by
+  have := psd_of_spectral_density μ (S := fun _ => (1:ℝ)) (fun _ => zero_le_one) (integrable_const _)
+  simpa using this
+
 end spectral
 
 /-! ### the Rational (rational-quadratic) family as a Gamma mixture of Gaussians -/
@@ -522,6 +529,35 @@ theorem integral_model_psd {ν : ℝ} (hν : 0 < ν) :
     · rw [Real.norm_eq_abs, abs_of_pos (Real.exp_pos _), Real.exp_le_one_iff]
       exact neg_nonpos.2 (sq_nonneg _)
 
+/-- **Matérn model** in its Gamma-mixture form `ρ(r) = Γ(ν)⁻¹ ∫₀^∞ u^{ν−1} e^{−u} e^{−r²/(4u)} du`
+    (`= 2^{1−ν}/Γ(ν) · r^ν K_ν(r)` by DLMF 10.32.10) is a valid correlation in every dimension for `ν > 0`. -/
+theorem matern_mixture_psd {ν : ℝ} (hν : 0 < ν) :
+    IsPSDRadial V fun r =>
+      (Real.Gamma ν)⁻¹ * ∫ u in Ioi (0:ℝ), Real.exp (-u) * u ^ (ν - 1) * Real.exp (-(r ^ 2 / (4 * u))) := by
+  have hmix := psd_scale_mixture (V := V) (volume.restrict (Ioi (0:ℝ))) (gaussian_psd (V := V))
+    (fun u => Real.exp (-u) * u ^ (ν - 1)) (fun u => (2 * Real.sqrt u)⁻¹) ?_ ?_ ?_
+  · have := psd_scale hmix (var := (Real.Gamma ν)⁻¹) (inv_nonneg.2 (Real.Gamma_pos_of_pos hν).le)
+    unfold IsPSDRadial at this ⊢
+    convert this using 3 with v
+    show _ = ∫ u in Ioi (0:ℝ), Real.exp (-u) * u ^ (ν - 1) * Real.exp (-((2 * Real.sqrt u)⁻¹ * ‖v‖) ^ 2)
+    refine setIntegral_congr_fun (measurableSet_Ioi (a := (0:ℝ))) fun u hu => ?_
+    have hu0 : (0:ℝ) < u := hu
+    show _ = Real.exp (-u) * u ^ (ν - 1) * Real.exp (-((2 * Real.sqrt u)⁻¹ * ‖v‖) ^ 2)
+    congr 2
+    rw [mul_pow, inv_pow, mul_pow, Real.sq_sqrt hu0.le]; ring
+  · refine (ae_restrict_iff' measurableSet_Ioi).2 (Filter.Eventually.of_forall fun u hu => ?_)
+    have hu0 : (0:ℝ) < u := hu
+    positivity
+  · exact Filter.Eventually.of_forall fun u => by positivity
+  · intro r _
+    have hi : IntegrableOn (fun u : ℝ => Real.exp (-u) * u ^ (ν - 1)) (Ioi 0) := Real.GammaIntegral_convergent hν
+    refine Integrable.mul_bdd (c := 1) hi ?_ (Filter.Eventually.of_forall fun u => ?_)
+    · refine Measurable.aestronglyMeasurable ?_
+      exact Real.measurable_exp.comp
+        ((((measurable_const.mul Real.continuous_sqrt.measurable).inv).mul measurable_const).pow_const 2).neg
+    · rw [Real.norm_eq_abs, abs_of_pos (Real.exp_pos _), Real.exp_le_one_iff]
+      exact neg_nonpos.2 (sq_nonneg _)
+
 /-- **Truncated power-law superposition** (`TPLCovModel`): `C(r) = ∫_{ℓ_low}^{ℓ_up} λ^{2H−1} φ(r/λ) dλ`
     is valid wherever the mode profile `φ` is, for every Hurst exponent and `0 ≤ ℓ_low`
     (integrability is a hypothesis here; discharged for Gaussian modes below). -/
@@ -596,6 +632,72 @@ theorem linear_psd_1d : IsPSDFun fun r : ℝ => max (1 - |r|) 0 := by
 
 end triangle
 
+/-! ### the Stable (powered exponential) family, `0 < α ≤ 2`, and the Exponential model — every dimension -/
+
+section stable
+open MeasureTheory Set
+
+/-- `‖a − b‖^α` is conditionally negative definite for `0 < α < 2`: Bernstein representation
+    `s^β · I = ∫₀^∞ (1 − e^{−t s}) t^{−1−β} dt` of `s^β`, `β = α/2`, applied to `s = ‖a − b‖²`, each
+    `1 − e^{−t‖a−b‖²}` being CND because the Gaussian kernel is PSD. -/
+theorem norm_rpow_cnd {α : ℝ} (hα0 : 0 < α) (hα2 : α < 2) : IsCNDKernel fun a b : V => ‖a - b‖ ^ α := by
+  have hβ0 : 0 < α / 2 := by positivity
+  have hβ1 : α / 2 < 1 := by linarith
+  have hF : ∀ᵐ t ∂(volume.restrict (Ioi (0:ℝ))), IsCNDKernel fun a b : V => bernsteinG (α / 2) (‖a - b‖ ^ 2) t := by
+    refine (ae_restrict_iff' measurableSet_Ioi).2 (Filter.Eventually.of_forall fun t ht => ?_)
+    have ht0 : (0:ℝ) < t := ht
+    have hg : IsPSDKernel fun a b : V => Real.exp (-(t * ‖a - b‖ ^ 2)) := by
+      have := psd_radial_scale (gaussian_psd (V := V)) (Real.sqrt_nonneg t)
+      unfold IsPSDRadial IsPSDFun at this
+      convert this using 3 with a b
+      show _ = Real.exp (-(Real.sqrt t * ‖a - b‖) ^ 2)
+      rw [mul_pow, Real.sq_sqrt ht0.le]
+    exact hg.one_sub_cnd (Real.rpow_nonneg ht0.le _)
+  have hI := IsCNDKernel.integral _ hF fun a b => bernsteinG_integrableOn hβ0 hβ1 (sq_nonneg ‖a - b‖)
+  have hIpos := bernsteinI_pos hβ0 hβ1
+  have h2 := hI.smul (inv_nonneg.2 hIpos.le)
+  refine ⟨fun a b => by show ‖a - b‖ ^ α = ‖b - a‖ ^ α; rw [norm_sub_rev], fun n x c hc => ?_⟩
+  have := h2.2 n x c hc
+  convert this using 6 with i _ j _
+  show ‖x i - x j‖ ^ α = (bernsteinI (α / 2))⁻¹ * ∫ (t : ℝ) in Ioi 0, bernsteinG (α / 2) (‖x i - x j‖ ^ 2) t
+  rw [bernstein_integral hβ0 (sq_nonneg _), ← Real.rpow_natCast, ← Real.rpow_mul (norm_nonneg _)]
+  have : ((2:ℕ):ℝ) * (α / 2) = α := by push_cast; ring
+  rw [this]; field_simp
+
+/-- **Stable model** `ρ(r) = exp(−r^α)`, `0 < α ≤ 2`, is a valid correlation in every dimension
+    (Schoenberg: `exp(−ψ)` for the conditionally negative definite `ψ = ‖·‖^α`; `α = 2` is the Gaussian). -/
+theorem stable_psd {α : ℝ} (hα0 : 0 < α) (hα2 : α ≤ 2) : IsPSDRadial V fun r => Real.exp (-(r ^ α)) := by
+  rcases hα2.eq_or_lt with rfl | hlt
+  · have := gaussian_psd (V := V)
+    unfold IsPSDRadial at this ⊢
+    convert this using 3 with v
+    show Real.exp (-(‖v‖ ^ (2:ℝ))) = Real.exp (-(‖v‖ ^ 2))
+    rw [Real.rpow_two]
+  · exact (norm_rpow_cnd (V := V) hα0 hlt).exp_neg 0
+
+/-- **Exponential model** `ρ(r) = exp(−r)` — every dimension. -/
+theorem exponential_psd : IsPSDRadial V fun r => Real.exp (-r) := by
+  have := stable_psd (V := V) (α := 1) one_pos one_le_two
+  unfold IsPSDRadial at this ⊢
+  convert this using 3 with v
+  show ‖v‖ = ‖v‖ ^ (1:ℝ)
+  rw [Real.rpow_one]
+
+/-- GSTools' `Stable.cor(h) = exp(−h^α)` at `h = s r / ℓ` (`s, ℓ ≥ 0`) -/
+theorem stable_model_psd {α : ℝ} (hα0 : 0 < α) (hα2 : α ≤ 2) {s ℓ : ℝ} (hs : 0 ≤ s) (hl : 0 ≤ ℓ) :
+    IsPSDRadial V fun r => Real.exp (-((s / ℓ * r) ^ α)) :=
+  psd_radial_scale (stable_psd (V := V) hα0 hα2) (div_nonneg hs hl)
+
+/-- **TPLStable / TPLExponential** superpositions (unnormalised) are valid in every dimension, given
+    integrability of the superposition integrand -/
+theorem tpl_stable_psd {α : ℝ} (hα0 : 0 < α) (hα2 : α ≤ 2) (H lo up : ℝ) (hlo : 0 ≤ lo)
+    (hint : ∀ r : ℝ, 0 ≤ r →
+      IntegrableOn (fun lam : ℝ => lam ^ (2 * H - 1) * Real.exp (-((lam⁻¹ * r) ^ α))) (Ioc lo up)) :
+    IsPSDRadial V fun r => ∫ lam in Ioc lo up, lam ^ (2 * H - 1) * Real.exp (-((lam⁻¹ * r) ^ α)) :=
+  tpl_psd_of_mode (stable_psd (V := V) hα0 hα2) H lo up hlo hint
+
+end stable
+
 /-! ## (5) end to end: accepted by the code ⇒ every covariance matrix is PSD (Gaussian, Rational) -/
 
 section endtoend
@@ -635,6 +737,30 @@ theorem accepted_rational_cov_psd (d : ℕ) (p : Params ℝ) (h : accepts .Ratio
   have hφ : IsPSDRadial (EuclideanSpace ℝ (Fin d)) fun t => (1 + (s * t) ^ 2 / p.alpha) ^ (-p.alpha) := by
     have := rational_model_psd (V := EuclideanSpace ℝ (Fin d)) hα' s 1
     simpa using this
+  exact psd_cov_spatial hφ A (var := p.var) (nugget := p.nugget) (ℓ := p.lenScale)
+    (by simpa using hv) (by simpa using hn) (by simpa using hl)
+
+/-- **Exponential, end to end.** -/
+theorem accepted_exponential_cov_psd (d : ℕ) (p : Params ℝ) (h : accepts .Exponential d p = true) {s : ℝ}
+    (hs : 0 ≤ s) (A : EuclideanSpace ℝ (Fin d) →ₗ[ℝ] EuclideanSpace ℝ (Fin d)) :
+    IsPSDFun fun r : EuclideanSpace ℝ (Fin d) =>
+      p.var * Real.exp (-(s * (‖A r‖ / p.lenScale))) + p.nugget * (if A r = 0 then 1 else 0) := by
+  obtain ⟨hv, hl, hn, -⟩ := validity_table .Exponential d p h
+  have hφ : IsPSDRadial (EuclideanSpace ℝ (Fin d)) fun t => Real.exp (-(s * t)) :=
+    psd_radial_scale (exponential_psd (V := EuclideanSpace ℝ (Fin d))) hs
+  exact psd_cov_spatial hφ A (var := p.var) (nugget := p.nugget) (ℓ := p.lenScale)
+    (by simpa using hv) (by simpa using hn) (by simpa using hl)
+
+/-- **Stable, end to end** (`α` from the accepted parameter set: the code's `(0, 2]` interval is exactly the
+    validity range). -/
+theorem accepted_stable_cov_psd (d : ℕ) (p : Params ℝ) (h : accepts .Stable d p = true) {s : ℝ}
+    (hs : 0 ≤ s) (A : EuclideanSpace ℝ (Fin d) →ₗ[ℝ] EuclideanSpace ℝ (Fin d)) :
+    IsPSDFun fun r : EuclideanSpace ℝ (Fin d) =>
+      p.var * Real.exp (-((s * (‖A r‖ / p.lenScale)) ^ p.alpha)) + p.nugget * (if A r = 0 then 1 else 0) := by
+  obtain ⟨hv, hl, hn, hα⟩ := validity_table .Stable d p h
+  have hα' : 0 < p.alpha ∧ p.alpha ≤ 2 := by simpa [litValidShape] using hα
+  have hφ : IsPSDRadial (EuclideanSpace ℝ (Fin d)) fun t => Real.exp (-((s * t) ^ p.alpha)) :=
+    psd_radial_scale (stable_psd (V := EuclideanSpace ℝ (Fin d)) hα'.1 hα'.2) hs
   exact psd_cov_spatial hφ A (var := p.var) (nugget := p.nugget) (ℓ := p.lenScale)
     (by simpa using hv) (by simpa using hn) (by simpa using hl)
 
